@@ -65,6 +65,10 @@ CHECKS['C10'] = dict(cat='other',
     tech='CrossHair/z3 solver-enumerated (scope kind, binding kind, name shape, read flag) constructions through the real lint(); oracle = the exemption rule of the property evaluated on the construction',
     text='Solver-enumerated (E) only: ~370 constructed modules covering 21 binding kinds x 6 scope kinds x name shape x read/never-read; the W01/W02 entries (code, message, line, column) must equal exactly what the rule gives and nothing else may be reported as unused.',
     note='each path one concrete module; locals(), global/nonlocal redirection and real files outside.', ref='3/C10')
+CHECKS['C15'] = dict(cat='other',
+    tech='CrossHair/z3 solver-enumerated request scripts through the real Environment methods, real Server.run/process and real umsgpack over an in-memory connection; oracle = in-process API',
+    text='Solver-enumerated (E) only: all scripts of 1..2 requests and a slice of the 3-request scripts over ten request kinds (valid and failing): each reply equals the in-process result on an identical project (tuples as lists), each failure surfaces as an exception carrying the server message, later replies are unaffected and the server loop keeps accepting.',
+    note='in-memory connection pair, Server.run driven one message at a time; real subprocess / sockets / OS failures / multi-MiB payloads outside (payload sizes: C14).', ref='3/C15')
 NA = {}
 
 def main():
